@@ -116,6 +116,14 @@ class FuncPtr:
         self.name = name
 
 
+class Choice:
+    """value of `c ? a : b` with symbolic c and non-integer operands (e.g. two string literals)"""
+    __slots__ = ("cond", "a", "b")
+
+    def __init__(self, cond, a, b):
+        self.cond, self.a, self.b = cond, a, b
+
+
 class Agg:
     """struct / array rvalue: raw cells"""
     __slots__ = ("cells",)
@@ -429,7 +437,7 @@ class Interp:
                 a, b = self.rval(n["inner"][1]), self.rval(n["inner"][2])
                 t = self.ty(n)
                 if not isinstance(t, TInt):
-                    raise CUnsupported("symbolic ?: on non-integers")
+                    return Choice(c != 0, a, b)
                 return self.norm(z3.If(c != 0, self.bv(a, t), self.bv(b, t)), t)
             return self.rval(n["inner"][1] if c != 0 else n["inner"][2])
         if k == "CallExpr":
@@ -695,10 +703,26 @@ class Interp:
         self.store(lv, new)
         return new
 
+    def c_string(self, p) -> str:
+        """the NUL-terminated concrete string a pointer refers to"""
+        out = []
+        k = p.off
+        while True:
+            self._check(p.region, k, 1, "read")
+            c = p.region.data[k]
+            if not isinstance(c, int):
+                raise CUnsupported("symbolic / uninitialised character in a C string")
+            if c == 0:
+                return bytes(out).decode("latin-1")
+            out.append(c)
+            k += 1
+
     # -------------------------------------------------------------- calls
     def call(self, n):
         callee = self.rval(n["inner"][0])
         args = [self.rval(a) for a in n["inner"][1:]]
+        if isinstance(callee, FuncPtr) and callee.name in self.externals:
+            return self.externals[callee.name](self, args, [self.ty(a) for a in n["inner"][1:]])
         if not isinstance(callee, FuncPtr):
             if isinstance(callee, Ptr) and callee.region is None:
                 self.ob("ub", "call through a null function pointer", False)
@@ -708,7 +732,7 @@ class Interp:
 
     def call_func(self, name, args):
         if name in self.externals:
-            return self.externals[name](self, args)
+            return self.externals[name](self, args, None)
         if name == "memset":
             p, v, cnt = args
             if is_sym(cnt) or is_sym(v):
